@@ -362,6 +362,10 @@ def check_C06(tier, seed, replay=None):
     inputs = F.all_inputs([F.A, F.B, F.UA], maxlen)
     combos = [(m, d, s) for m in (False, True) for d in (False, True) for s in (False, True)]
     options = [opt(memo=m, debug=d, stats=s) for (m, d, s) in combos] + [opt(memo=m, debug=d, stats=s, maxexpr=3000) for (m, d, s) in combos]
+    # memoised parses that are cut short (budget exhausted after a few entries were made), in between the others: what a parse
+    # leaves behind when it is aborted must not reach the next one
+    cut = [len(options), len(options) + 1]
+    options += [opt(memo=True, maxexpr=4), opt(memo=True, maxexpr=9, stats=False)]
     nin = len(inputs)
     lrin = add_lr(groups, inputs, 60 if tier == "quick" else 400, seed, maxlen=3, pure=True)   # "for a grammar without left recursion" limits only the work bound
     # deep evaluation: the options must not change the result of a parse that nests hundreds of frames (indentation of the
@@ -390,7 +394,9 @@ def check_C06(tier, seed, replay=None):
         if "deep" in g.tags:
             return [(ii, oi) for ii in deepin for oi in range(8)]
         # Memoize on a grammar that iterates without consuming never returns (known finding F3, C16): not run here
-        ois = [8 + i for i, c in enumerate(combos) if not c[0]] if g.maydiverge else range(8)
+        ois = [8 + i for i, c in enumerate(combos) if not c[0]] if g.maydiverge else list(range(8))
+        if not g.maydiverge and g.gi % 3 == 0:
+            ois = [cut[0]] + ois[:5] + [cut[1]] + ois[5:]
         return [(ii, oi) for ii in range(nin) for oi in ois]
     run.keep_debug = True
     div, tot = run.execute(groups, inputs, options, plan_for, [[], ["-optimize-basic-latin", "-nolint"]])
@@ -781,6 +787,21 @@ def check_C08(tier, seed, replay=None):
     run = Run("C08", tier, seed)
     n, maxlen = (250, 4) if tier == "quick" else (600, 4)
     groups = F.lr_groups(seed, n)
+    # a rule that is left-recursive directly AND through another rule whose name sorts before it: every cycle passes through
+    # the directly recursive rule, so it is the leader whatever the names are
+    from peg import Gram
+    for variant in range(4):
+        g = Gram(len(groups) + 1)
+        g.tags.add("lr")
+        call = g.choice([g.action(g.seq([g.label(g.ref(3)), g.lit([F.LP])])), g.action(g.lit([F.NN]))])
+        rec = g.action(g.seq([g.label(g.ref(3)), g.lit([F.PLUS if variant % 2 == 0 else F.STAR_]), g.lit([F.NN])]))
+        expr = g.choice([rec, g.ref(2)]) if variant < 2 else g.choice([rec, g.ref(2), g.seq([g.lit([F.LP]), g.ref(3)])])
+        g.rules = [g.action(g.seq([g.label(g.ref(3)), g.un("opt", g.lit([120]))])), call, expr]
+        g.lr = [0, 0, 2]
+        g.disp = [""] * 3
+        g.compute_args()
+        g.maydiverge = False
+        groups.append(g)
     inputs = F.all_inputs([F.NN, F.PLUS, F.STAR_, F.LP], maxlen)
     rng = random.Random(seed)
     for _ in range(200 if tier == "quick" else 600):
@@ -851,6 +872,7 @@ def check_C07(tier, seed, replay=None):
         return g
     for k_ in range(150 if tier == "quick" else 1500):
         builders.append(lambda gi, sd=seed * 1000 + k_: dense(gi, sd))
+    special = []          # hand-written families come first (the accepted ones among the first 400 are also generated and run)
     def f22(gi):          # the witness of known finding F22 (a cycle that closes through a throw and a handler still in force)
         g = _G(gi)
         r1 = g.choice([g.recover(g.seq([g.lit([F.A]), g.throw("la")]), g.ref(3), ["la"]), g.lit([F.B])])
@@ -861,7 +883,7 @@ def check_C07(tier, seed, replay=None):
         g.compute_args()
         g.maydiverge = True
         return g
-    builders.append(f22)
+    special.append(f22)
 
     # a rule that is left-recursive only behind a NULLABLE RULE, which itself mentions the first rule after consuming input
     # (the nullable flags of rule references are cached per traversal; the verdict must not depend on the rule names' order)
@@ -881,7 +903,7 @@ def check_C07(tier, seed, replay=None):
     for pk in range(7):
         for swap in (False, True):
             for tail in (False, True):
-                builders.append(lambda gi, pk=pk, swap=swap, tail=tail: nullable_rule_prefix(gi, pk, swap, tail))
+                special.append(lambda gi, pk=pk, swap=swap, tail=tail: nullable_rule_prefix(gi, pk, swap, tail))
 
     # left recursion confined to rules that the first rule does not reach (every rule can be an Entrypoint)
     def unreachable_lr(gi, kind):
@@ -899,7 +921,22 @@ def check_C07(tier, seed, replay=None):
         g.maydiverge = True
         return g
     for kind in range(4):
-        builders.append(lambda gi, kind=kind: unreachable_lr(gi, kind))
+        special.append(lambda gi, kind=kind: unreachable_lr(gi, kind))
+
+    # a rule name defined twice: the last definition is the rule (for the analysis AND for the generated parser)
+    def defined_twice(gi, live_lr):
+        g = _G(gi)
+        lrdef = lambda: g.choice([g.seq([g.ref(3), g.lit([F.A])]), g.lit([F.B])])
+        plain = lambda: g.choice([g.seq([g.lit([F.A]), g.un("opt", g.ref(3))]), g.lit([F.B])])
+        g.rules = [g.seq([g.ref(3), g.un("opt", g.lit([F.B]))]), plain() if live_lr else lrdef(), lrdef() if live_lr else plain()]
+        g.idents = ["G%d_R1" % gi, "G%d_D" % gi, "G%d_D" % gi]
+        g.disp = [""] * 3
+        g.compute_args()
+        g.maydiverge = True
+        return g
+    special.append(lambda gi: defined_twice(gi, False))
+    special.append(lambda gi: defined_twice(gi, True))
+    builders = special + builders
     groups = [b(i + 1) for i, b in enumerate(builders)]
     pigeon = P.build_pigeon()
     res = run_pigeon_each(groups, [], pigeon)
@@ -1919,7 +1956,8 @@ def c09_groups(seed, n, gi0=1):
     lits = [((F.A,), False), ((F.B,), False), ((F.A, F.B), False), ((F.UA,), True), ((F.B,), True), ((), False)]
     clss = [((F.A,), (), False, False), ((F.B,), (), False, False), ((F.A,), (), True, False), ((F.B,), (), True, False),
             ((), (F.A, F.B), False, False), ((F.UA,), (), False, True), ((F.A,), (), True, True), ((F.B, 99), (), False, False),
-            ((F.A, F.B, 99), (), False, False), ((F.A, F.B, 99, F.UA, 100), (), False, False), ((F.A, F.UA, 99), (), False, True)]
+            ((F.A, F.B, 99), (), False, False), ((F.A, F.B, 99, F.UA, 100), (), False, False), ((F.A, F.UA, 99), (), False, True),
+            ((95,), (65, 122), False, True), ((94, 95), (65, 122), False, True), ((95, F.A), (F.UA, 90), False, True), ((F.B,), (F.A, 99), False, False)]    # members inside / outside the ranges as written vs as folded
     for i in range(n):
         g = Gram(gi0 + i)
         g.labpool, g.labrng = ["k", "v"], rng        # the same label name in the caller and in an inlined rule
@@ -2058,6 +2096,8 @@ def c09_idiom_groups(seed, n, gi0):
                 return g.cls(tuple(chars), (), rng.random() < 0.15, rng.random() < 0.2)
             if c < 0.8:
                 return g.choice([g.lit([x]) for x in chars[:3]]) if len(chars) > 1 else g.lit([chars[0]])
+            if rng.random() < 0.3:
+                return g.cls((95, rng.choice(pool)), (65, 122), False, True)       # [_xA-z]i: the underscore lies between Z and a
             return g.cls(tuple(chars[:2]), (F.A, 99), False, False)
 
         def single():
